@@ -122,6 +122,9 @@ def replay(cex):
         return cmh.replay_linear_step(cex)
     if cex.get("kind") == "log-step":
         return logh.replay_log_step(cex)
+    if cex.get("kind") == "w":
+        from engine import wrun
+        return wrun.replay_generic(cex)
     return {"reproduced": False, "how": "unknown cex kind"}
 
 
@@ -142,6 +145,9 @@ def main():
     for which in ("shared-counter", "conservative", "ceiling"):
         obs.append(common.Ob(f"witness linear {which}", ob_linear_witness, (2, 2, which), kind="witness", hard_s=300))
     obs += logh.c05_obligations(tier)
+    from engine import wrun
+    wobs, wmeta = wrun.obligations("c05", tier)
+    obs += wobs
     results = common.run_obligations(obs, progress=os.environ.get("VERIF_VERBOSE") == "1")
     funcs = set()
     for r in results:
